@@ -25,7 +25,7 @@ Episodes == JsonDeserialize(IOEnv.TRACE_FILE)
 NEp == Len(Episodes)
 
 VARIABLES ep, stage, nAcc, nRej, nMach, nDrift
-tvars == <<pc, P, req, G, jobs, results, excluded, result, queue, node, dequeued,
+tvars == <<pc, P, G, alljobs, jobs, results, excluded, result, queue, node, dequeued,
            ep, stage, nAcc, nRej, nMach, nDrift>>
 cursor == <<ep, stage, nAcc, nRej, nMach, nDrift>>
 
@@ -37,10 +37,10 @@ EJobs == [j \in 1..Len(E.jobs) |-> [roots |-> Range(E.jobs[j].roots), excl |-> R
 
 Load == /\ ep <= NEp /\ stage = "load"
         /\ G' = [next |-> E.next, acc |-> Range(E.acc)]
-        /\ jobs' = EJobs
+        /\ alljobs' = EJobs /\ jobs' = EJobs
         /\ results' = <<>> /\ pc' = "Jobs"
         /\ stage' = "walk"
-        /\ UNCHANGED <<P, req, excluded, result, queue, node, dequeued, ep, nAcc, nRej, nMach, nDrift>>
+        /\ UNCHANGED <<P, excluded, result, queue, node, dequeued, ep, nAcc, nRej, nMach, nDrift>>
 
 Sorted(q) == \A i \in 1..(Len(q) - 1) : q[i] < q[i + 1]
 
@@ -67,7 +67,7 @@ Clause == IF TOverlap THEN (IF E.obs.status = "rejected" THEN "none"
           ELSE "none"
 
 NextEp == /\ ep' = ep + 1 /\ stage' = "load"
-          /\ UNCHANGED <<pc, P, req, G, jobs, results, excluded, result, queue, node, dequeued>>
+          /\ UNCHANGED <<pc, P, G, alljobs, jobs, results, excluded, result, queue, node, dequeued>>
 
 TVerdict ==
     /\ stage = "walk" /\ pc = "Done"
@@ -88,10 +88,12 @@ TDone == /\ ep = NEp + 1 /\ stage = "load"
          /\ PrintT(<<"SUMMARY", ToJson([episodes |-> NEp, accepted |-> nAcc, rejected |-> nRej,
                                          machinery |-> nMach, drift |-> nDrift])>>)
          /\ stage' = "end"
-         /\ UNCHANGED <<pc, P, req, G, jobs, results, excluded, result, queue, node, dequeued,
+         /\ UNCHANGED <<pc, P, G, alljobs, jobs, results, excluded, result, queue, node, dequeued,
                         ep, nAcc, nRej, nMach, nDrift>>
 
 TNext == Load \/ TWalk \/ TVerdict \/ TDone
 TraceSpec == TInit /\ [][TNext]_tvars
 TraceConsumed == (stage = "end") => (nAcc + nRej + nMach = NEp)
+\* the walk of every logged call satisfies the model-checked invariant as well
+TraceWalkCorrect == (stage = "walk") => WalkCorrect
 =============================================================================
